@@ -47,7 +47,9 @@ def fail(msg=None):
 def assert_repo(*mods):
     for m in mods:
         f = getattr(m, "__file__", "") or ""
-        assert f.startswith("/repo/"), f"{m.__name__} loaded from {f}, not /repo"
+        import os
+        repo = os.environ.get("VF_REPO", "/repo").rstrip("/")
+        assert f.startswith(repo + "/"), f"{m.__name__} loaded from {f}, not {repo}"
 
 
 def real(x):
